@@ -21,6 +21,8 @@ Agree(want, ok, v) == IF want.ok THEN ok /\ FClose(v, want.v, Tol, Zero) ELSE ~o
 AllOk(r, names) == \A n \in names : Ok(r, n)
 \* cm2/g -> barn/atom
 Barn(r, n) == IF Ok(r, n) /\ Ok(r, "AtomicWeight") THEN Val(FDiv(FMul(V(r, n), V(r, "AtomicWeight")), NA)) ELSE Fail
+\* any other barn/atom function next to its cm2/g twin for the same (Z, shell or line, E): t = [n, m, b = <<ok, value>>, c = <<ok, value>>]
+WantTwin(ev, t) == IF t.c[1] = 1 /\ Ok(ev.r, "AtomicWeight") THEN Val(FDiv(FMul(t.c[2], V(ev.r, "AtomicWeight")), NA)) ELSE Fail
 \* ---- expected result of each aggregate of an "aggE" event (per Z, E)
 OccOK(ev, s) == ev.occ[s + 1][1] = 1 /\ FGt(ev.occ[s + 1][2], F("1e-6"))
 DefinedShells(ev) == { s \in 0..30 : OccOK(ev, s) /\ ev.pb[s + 1][1] = 1 }
